@@ -247,6 +247,17 @@ int main(int argc, char** argv)
                    / (harmonic_number*V_eff)*std::pow(fs/f_rev,2);
     }
 
+    if (!(std::abs(fs) > 0)) {
+        // zero, or NaN from a momentum compaction factor that is not positive:
+        // bunch length and frequency range below would be zero or NaN
+        std::stringstream fsmsg;
+        fsmsg << "No synchrotron frequency for alpha0=" << alpha0_tmp
+              << " (give a positive alpha0 or a SynchrotronFrequency)."
+              << " Will now quit.";
+        Display::printText(fsmsg.str());
+        return EXIT_SUCCESS;
+    }
+
     std::vector<meshaxis_t> alpha{{ static_cast<meshaxis_t>(alpha0_tmp),
                                     opts.getAlpha1(),
                                     opts.getAlpha2()}};
